@@ -697,8 +697,8 @@ fn run_table(
                     run.evaluations += 1;
                     run.count("long-text cases");
                     oracle.check(run, &b, &text, &Expect { ids: &rids, merges, depth, per_word, single_token: None });
+                    run.tick(); // a 4 KiB word costs the reference encoder a noticeable fraction of a second
                 }
-                run.tick();
             }
             // trained tables: the training words themselves
             if let (true, Some(lines)) = (main, corpus) {
